@@ -14,12 +14,23 @@ import (
 
 func init() { register("C12", checkC12) }
 
+// dateTextRules are the rules of the text ↔ day-number helpers that every reader of dated input and every
+// writer of dated output goes through (schedules, rotation, groundwater series, record dates); properties
+// quantified over "all date formats" or over dates in the files share them under their own rule ids.
+func dateTextRules(p *Prog, r *Report, prefix string) {
+	c12Leap(p, r, prefix+"a")
+	c12LeapThreshold(p, r)
+	c12ForwardArms(p, r, prefix+"b")
+	c12Formats(p, r, prefix+"c")
+	c12Century(p, r)
+}
+
 func checkC12(p *Prog, r *Report) {
 	c12Tables(p, r, "C12.R1")
 	c12Leap(p, r, "C12.R2")
 	c12LeapThreshold(p, r)
 	c12InverseDayOfYear(p, r)
-	c12Formats(p, r)
+	c12Formats(p, r, "C12.R3")
 	c12Century(p, r)
 	c12Closures(p, r)
 	c12InverseShape(p, r)
@@ -330,8 +341,8 @@ func keysOfPoly(m map[string]Poly) []string {
 
 // ---------------------------------------------------------------- R3 formats
 
-func c12Formats(p *Prog, r *Report) {
-	r.Rule("C12.R3", "format symmetry: every date-format constant has a case in the parser and in the renderer; day/month are extracted and rendered in the same order; short formats add and remove the same century (100), long formats the same base year", 6)
+func c12Formats(p *Prog, r *Report, rule string) {
+	r.Rule(rule, "format symmetry: every date-format constant has a case in the parser and in the renderer; day/month are extracted and rendered in the same order; short formats add and remove the same century (100), long formats the same base year", 6)
 	// the constants of DateFormat
 	var consts []string
 	scope := p.Hermes.Types.Scope()
